@@ -52,6 +52,14 @@ impl<'a> Ctx<'a> {
         }
         v
     }
+    /// thorough tier: the tier's set plus the all-sizes sweep (every block size 1..=255, width 2)
+    pub fn cfgs_with_sweep(&self) -> Vec<&'a Cfg> {
+        let mut v = self.cfgs();
+        if self.tier == Tier::Thorough {
+            v.extend(self.reg.cfgs.iter().filter(|c| c.sets.contains('s')));
+        }
+        v
+    }
     pub fn toy_cfgs(&self) -> Vec<&'a Cfg> {
         self.cfgs().into_iter().filter(|c| c.is_toy()).collect()
     }
